@@ -45,7 +45,8 @@ Outside the fragment (=> TranslateError => the tie is reported broken):
 multiple inheritance inside the chain, unknown decorators, `self` escaping
 (passed to an unknown function, stored, returned), `del self.a`,
 `setattr/vars/__dict__`, `global/nonlocal`, generators, recursion among the
-inlined methods, a nested function that mentions `self`.
+inlined methods, a decorated nested function that mentions `self`
+(an undecorated closure over `self` is analysed as "possibly executed" where it is defined).
 Not seen (stated limitation): mutation through a local alias of an attribute
 (`w = self._W; w[0] = ..`), mutation by code outside the class.
 """
@@ -649,9 +650,18 @@ class Analyzer:
                 self.block(s.finalbody, entry, fr)
             return out
         if isinstance(s, ast.FunctionDef):
-            for n in ast.walk(s):
-                if isinstance(n, ast.Name) and n.id == 'self':
-                    raise TranslateError('nested function %s mentions self' % s.name)
+            if any(isinstance(n, ast.Name) and n.id == 'self' for n in ast.walk(s)):
+                # a closure over self: it may run any number of times after its definition; its body is
+                # analysed here as "possibly executed" (its writes become conditional writes)
+                if s.decorator_list or any(a.arg == 'self' for a in s.args.args):
+                    raise TranslateError('nested function %s: decorated / rebinds self' % s.name)
+                sub = Frame(fr.dyn, fr.defcls, s, fr.depth + 1)
+                end = self.block(s.body, st, sub)
+                for r in sub.returns:
+                    end = join(end, r)
+                fr.reads |= sub.reads
+                fr.fills |= sub.fills
+                return join(st, end)
             return st
         if isinstance(s, (ast.Import, ast.ImportFrom)):
             return st
